@@ -37,7 +37,7 @@ class Seq:
         if IR.is_seq(self.et):
             return Seq(IR.elem(self.et), z3.Select(self.arr, i), z3.Select(self.lens, i))
         if isinstance(self.arr, dict):       # sequence of records with scalar fields, kept as one array per field (read-only)
-            return Rec(self.et[4:], {fn: z3.Select(a, i) for fn, a in self.arr.items()})
+            return Rec(self.et[4:] if self.et.startswith('rec:') else self.et, {fn: z3.Select(a, i) for fn, a in self.arr.items()})
         return z3.Select(self.arr, i)
 
 
@@ -234,6 +234,10 @@ class Engine:
             if et.startswith('rec:') and all(ft in INTS or ft in ('double', 'bool') for fn, ft in self.records.fields(et[4:])):
                 # records with scalar fields only: one array per field (such sequences are read, never written, in the functions under contract)
                 return Seq(et, {fn: fresh('%s.%s' % (name, fn), z3.ArraySort(z3.IntSort(), z3.RealSort() if ft == 'double' else (z3.BoolSort() if ft == 'bool' else z3.IntSort()))) for fn, ft in self.records.fields(et[4:])}, n)
+            if et.startswith('pair<') and all(ct in INTS or ct in ('double', 'bool') for ct in IR.split_targs(et[5:-1])):
+                a_, b_ = IR.split_targs(et[5:-1])
+                zs = lambda ct: z3.RealSort() if ct == 'double' else (z3.BoolSort() if ct == 'bool' else z3.IntSort())
+                return Seq(et, {'first': fresh(name + '.first', z3.ArraySort(z3.IntSort(), zs(a_))), 'second': fresh(name + '.second', z3.ArraySort(z3.IntSort(), zs(b_)))}, n)
             if et.startswith('rec:') or et.startswith('pair<'):
                 return Seq(et, None, n)      # opaque elements
             return Seq(et, fresh(name, zsort(t)), n)
@@ -260,12 +264,16 @@ class Engine:
             if IR.is_seq(et):
                 return Seq(et, z3.K(z3.IntSort(), z3.K(z3.IntSort(), self.default_val(IR.elem(et), st))), z3.IntVal(0), z3.K(z3.IntSort(), z3.IntVal(0)))
             if et.startswith('rec:'): return PySeq(et, [])
+            if et.startswith('pair<') and all(ct in INTS or ct in ('double', 'bool') for ct in IR.split_targs(et[5:-1])):
+                a_, b_ = IR.split_targs(et[5:-1])
+                return Seq(et, {'first': z3.K(z3.IntSort(), self.default_val(a_, st)), 'second': z3.K(z3.IntSort(), self.default_val(b_, st))}, z3.IntVal(0))
             return Seq(et, z3.K(z3.IntSort(), self.default_val(et, st)), z3.IntVal(0))
         return self.fresh_val(t, 'uninit', st)
 
     def ite_val(self, c, a, b):
         if isinstance(a, Seq):
             if a.arr is None: return a
+            if isinstance(a.arr, dict): return Seq(a.et, {fn_: z3.If(c, a.arr[fn_], b.arr[fn_]) for fn_ in a.arr}, z3.If(c, a.n, b.n))
             return Seq(a.et, z3.If(c, a.arr, b.arr), z3.If(c, a.n, b.n), None if a.lens is None else z3.If(c, a.lens, b.lens))
         if isinstance(a, Rec):
             return Rec(a.name, {k: self.ite_val(c, a.f[k], b.f[k]) for k in a.f})
@@ -769,6 +777,9 @@ class Engine:
             k = z3.Int('k!eq')
             st.assume(r == z3.And(a.n == b.n, z3.ForAll([k], z3.Implies(z3.And(0 <= k, k < a.n), z3.Select(a.arr, k) == z3.Select(b.arr, k)))))
             return r
+        if fn == 'std::make_pair' and len(e.args) == 2:
+            a = self.ev(e.args[0], st); b = self.ev(e.args[1], st)
+            return Rec(e.t if isinstance(e.t, str) and e.t.startswith('pair<') else 'pair<double,double>', {'first': a, 'second': b})
         raise E2Error('primitive %s in value position' % fn)
 
     def streq(self, sym, lit, st):
@@ -1809,7 +1820,10 @@ class Verifier(Engine):
                 nb = PySeq(b.et, b.items + [v])
             elif fn == 'seq.push_back':
                 v = self.ev(c.args[1], st)
-                if isinstance(v, Seq):
+                if isinstance(b.arr, dict):
+                    if not isinstance(v, Rec): raise E2Error('push_back of a non-record into a sequence of records')
+                    nb = Seq(b.et, {fn_: z3.Store(a_, b.n, (self.to_real(v.f[fn_]) if a_.sort().range().kind() == z3.Z3_REAL_SORT else v.f[fn_])) for fn_, a_ in b.arr.items()}, b.n + 1)
+                elif isinstance(v, Seq):
                     nb = Seq(b.et, z3.Store(b.arr, b.n, v.arr), b.n + 1, z3.Store(b.lens, b.n, v.n))
                 elif b.arr is None:
                     nb = Seq(b.et, None, b.n + 1)
@@ -1986,6 +2000,10 @@ class Verifier(Engine):
 
     def havoc_val(self, old, nm, how, st, t=None):
         if isinstance(old, PySeq): raise E2Error('sequence of records modified in a loop with an invariant (bounded views only)')
+        if isinstance(old, Seq) and isinstance(old.arr, dict):
+            n_ = old.n if how == 'elem' else fresh('hv.' + nm + '.len', z3.IntSort())
+            if how != 'elem': st.assume(z3.And(n_ >= 0, n_ <= 2 ** 31))
+            return Seq(old.et, {fn_: fresh('hv.%s.%s' % (nm, fn_), a_.sort()) for fn_, a_ in old.arr.items()}, n_)
         if isinstance(old, Seq) and how == 'elem' and old.arr is not None:
             if old.lens is not None:
                 return Seq(old.et, fresh('hv.' + nm, old.arr.sort()), old.n, old.lens)
